@@ -2,7 +2,7 @@
    kind 0301: FS model vs the Linux kernel (random syscall sequences in a chroot jail).
    kind 0302: real fsutil.Receive fed by a hostile sender vs recv_fs (see below). *)
 From Coq Require Import List NArith Bool.
-From FS Require Import Sx Model.Path Model.Stat Model.Validator Model.Fs Model.DiskWriterFs.
+From FS Require Import Sx Model.Path Model.Stat Model.Validator Model.Fs Model.DiskWriterFs Model.RecvSpec.
 Import ListNotations.
 Open Scope N_scope.
 Open Scope bool_scope.
@@ -113,9 +113,9 @@ Definition run_0301 (input impl : sx) : sx :=
          xattrs and bytes; for the destination directory itself: its entry (name, inode, type,
          mode, owner, xattrs); for an inode that had a second name inside the destination
          before the run: link count and ctime are left out (removing the inside name changes them);
-     (b) a stream the specification calls bad (C12 path/order/parent specification, hard link
-         to a path not sent before, content for an id no regular STAT announced or already
-         terminated) makes Receive fail, and no path first named at or after the offending
+     (b) a stream the specification calls bad (Model/RecvSpec.v: C12 path/order/parent
+         specification, hard link to a path not sent before, content for an id no regular STAT
+         announced) makes Receive fail, and no path first named at or after the offending
          packet has been created or altered. *)
 Record rawent := {
   re_path : bytes; re_ino : N; re_nlink : N; re_type : N; re_perm : N; re_uid : N; re_gid : N;
@@ -161,7 +161,6 @@ Definition strictly_below (d p : bytes) : bool :=
   | [] => negb (is_nil p)
   | _ => has_prefix (d ++ [sep]) p
   end.
-Fixpoint memN (x : N) (l : list N) : bool := match l with [] => false | y :: r => N.eqb x y || memN x r end.
 
 Definition outside_key (dest : bytes) (shared : list N) (e : rawent) : sx :=
   if bytes_eqb (re_path e) dest then
@@ -175,32 +174,7 @@ Definition outside_key (dest : bytes) (shared : list N) (e : rawent) : sx :=
 Definition outside_view (dest : bytes) (shared : list N) (l : list rawent) : sx :=
   SL (map (outside_key dest shared) (filter (fun e => negb (strictly_below dest (re_path e))) l)).
 
-(* ---- specification (b): bad streams ---- *)
-Record sspec := { ss_acc : list vitem; ss_paths : list bytes; ss_next : N; ss_ids : list N; ss_term : list N }.
-
-Fixpoint spec_bad (pks : list packet) (s : sspec) (i : nat) : option nat :=
-  match pks with
-  | [] => None
-  | PFin :: _ => None          (* nothing after FIN is looked at *)
-  | PErr :: _ => None          (* the sender gave up *)
-  | POther :: r => spec_bad r s (S i)
-  | PStat None :: r => spec_bad r s (S i)
-  | PStat (Some st) :: r =>
-    let it := item_of st in
-    let islink := negb (st_is_dir st) && negb (mode_is_symlink (st_mode st)) && negb (is_nil (st_linkname st)) in
-    if negb (spec_ok_b (ss_acc s) it) then Some i
-    else if islink && negb (mem_bytes (st_linkname st) (ss_paths s)) then Some i
-    else spec_bad r {| ss_acc := ss_acc s ++ [it]; ss_paths := st_path st :: ss_paths s; ss_next := ss_next s + 1;
-                       ss_ids := if mode_is_regular (st_mode st) && is_nil (st_linkname st)
-                                 then ss_next s :: ss_ids s else ss_ids s;
-                       ss_term := ss_term s |} (S i)
-  | PData id d :: r =>
-    if negb (memN id (ss_ids s)) || memN id (ss_term s) then Some i
-    else spec_bad r {| ss_acc := ss_acc s; ss_paths := ss_paths s; ss_next := ss_next s; ss_ids := ss_ids s;
-                       ss_term := if is_nil d then id :: ss_term s else ss_term s |} (S i)
-  end.
-Definition sspec_init : sspec := {| ss_acc := []; ss_paths := []; ss_next := 0; ss_ids := []; ss_term := [] |}.
-
+(* ---- specification (b): bad streams: [spec_bad] of Model/RecvSpec.v ---- *)
 Definition stat_paths (pks : list packet) : list bytes :=
   flat_map (fun pk => match pk with PStat (Some st) => [st_path st] | _ => [] end) pks.
 
